@@ -360,15 +360,8 @@ def r4(ctx):
     ok = ok and fields[2:6] == ["transmitted_hap_father1", "transmitted_hap_father2", "transmitted_hap_mother1", "transmitted_hap_mother2"]
     ctx.ob(fr.qual, "low-bit-father-high-bit-mother", ok, fr.loc(evs[0]), "value % 2 fills the father fields, value // 2 the mother fields (C++: father bit 2t, mother bit 2t+1)" if ok else "decoding %s into fields %s does not match the C++ layout" % (exprs, fields[2:6]))
     c20.check_block_lookup(ctx, fr)
-    wr = ctx.func(PH + ".write_recombination_list")
-    ok = False
-    for n in walk_function(wr.node):
-        if isinstance(n, ast.For) and u(n.iter) == "trios":
-            mods = [s for s in n.body if isinstance(s, ast.Assign) and isinstance(s.value, ast.BinOp) and isinstance(s.value.op, ast.Mod) and u(s.value.right) == "4"]
-            divs = [s for s in n.body if isinstance(s, ast.Assign) and isinstance(s.value, ast.BinOp) and isinstance(s.value.op, ast.FloorDiv) and u(s.value.right) == "4"]
-            if mods and divs and u(mods[0].value.left) == u(divs[0].targets[0]) == u(divs[0].value.left) and n.body.index(mods[0]) < n.body.index(divs[0]):
-                ok = True
-    ctx.ob(wr.qual, "two-bits-per-trio-lowest-first", ok, wr.loc(), "trio t's value is digit t of the base-4 expansion (bits 2t, 2t+1), in trios order" if ok else "per-trio decoding is not `% 4` then `// 4` in trios order")
+    wr, ok = c20.trio_digit_decoding(ctx)
+    ctx.ob(wr.qual, "two-bits-per-trio-lowest-first", ok, wr.loc(), "trio t's value is digit t of the base-4 expansion (bits 2t, 2t+1), in trios order" if ok else ("per-trio decoding is not `% 4` then `// 4` in trios order" if ok is False else "cannot read how write_recombination_list splits the transmission values into per-trio digits"))
     cp = ctx.func(PH + ".create_pedigree")
     tl = [n for n in walk_function(cp.node) if isinstance(n, ast.For) and u(n.iter) == "trios" and any(isinstance(c, ast.Call) and u(c.func) == "pedigree.add_relationship" for c in ast.walk(n))]
     run = ctx.func(PH + ".run_whatshap")
